@@ -21,6 +21,9 @@ def parse_line(l):
     l = l.strip()
     if l.endswith(":"):
         return ("label", l[:-1])
+    if l.startswith("."):
+        parts = l.split(None, 1)
+        return ("dir", parts[0], [o.strip() for o in parts[1].split(",")] if len(parts) > 1 else [])
     parts = l.split(None, 1)
     ops = [o.strip() for o in parts[1].split(",")] if len(parts) > 1 else []
     return ("inst", parts[0], ops)
@@ -145,6 +148,24 @@ def write(rng, items, fancy):
                 if fancy and rng.random() < 0.15:
                     emit(rng.choice(["", "   ", "# note", "\t# li t0, 1"]), [])
             continue
+        if it[0] == "dir":
+            # a directive: its values in any notation, a comment behind it, blank or comment lines after it
+            vals = [spell_imm(rng, int(v), fancy) if re.match(r"^-?\d+$", v) else v for v in it[2]]
+            ds = it[1] if not fancy else rng.choice([it[1], it[1], it[1].upper()])
+            pre, toks = (pending if pending else (ind, []))
+            pending = None
+            txt = pre + ds
+            toks = list(toks) + [(len(pre), len(pre) + len(ds) - 1, (idx, ("M", None), 0))]
+            for k, v in enumerate(vals):
+                txt += ((rng.choice([" ", "\t", "  "]) if k == 0 else rng.choice([", ", ",", " ", " , "])) if fancy else (" " if k == 0 else ", ")) + v
+            toks.append((-1 - idx, len(txt) - 1, (idx, ("END", None), 0)))
+            explicit[idx] = set()
+            if fancy and rng.random() < 0.4:
+                txt += rng.choice([" ", "\t", ""]) + "#" + rng.choice(["", " number of items", " li t0, 1"])
+            emit(txt, toks)
+            if fancy and rng.random() < 0.3:
+                emit(rng.choice(["", "  ", "# full line comment", "\t#x"]), [])
+            continue
         _, m, ops = it
         if fancy and rng.random() < 0.6:
             e = expand(rng, m, ops)
@@ -265,6 +286,12 @@ def run(ctx):
                             ["csrs t1, uie"], ["csrc t1, uie"], []])
         progs.append(h[:2] + extra + h[2:])
     progs = [[l for l in p if not l.strip().startswith((".", "#"))] for p in progs]
+    for p in progs:                  # data among the code: a data block, inline data, data whose `.text` was forgotten
+        if rng.random() < 0.35:
+            at = rng.choice([i for i in range(len(p) + 1)])
+            vals = ", ".join(str(rng.choice([0, 1, 3, 7, 42, 255, -1])) for _ in range(rng.randrange(1, 4)))
+            d = rng.choice([".word", ".word", ".byte", ".half", ".dword"]) + " " + vals
+            p[at:at] = rng.choice([[".data", d, ".text"], [d], [".data", d], [".data", "tbl_%d:" % at, d, ".text"], [".text"], [".globl main"]])
     cases = []
     for p in progs:
         items = [parse_line(l) for l in p]
